@@ -7,6 +7,7 @@ require (
 	k8s.io/cli-runtime v0.31.1
 	k8s.io/klog/v2 v2.130.1
 	sigs.k8s.io/cli-utils v0.0.0
+	sigs.k8s.io/controller-runtime v0.19.0
 )
 
 require (
@@ -75,7 +76,6 @@ require (
 	k8s.io/kube-openapi v0.0.0-20240228011516-70dd3763d340 // indirect
 	k8s.io/kubectl v0.31.1 // indirect
 	k8s.io/utils v0.0.0-20240711033017-18e509b52bc8 // indirect
-	sigs.k8s.io/controller-runtime v0.19.0 // indirect
 	sigs.k8s.io/json v0.0.0-20221116044647-bc3834ca7abd // indirect
 	sigs.k8s.io/kustomize/api v0.17.2 // indirect
 	sigs.k8s.io/kustomize/kyaml v0.17.2 // indirect
